@@ -30,31 +30,45 @@ Render(e) ==
     [] e.k = "bin"   -> "(" \o Render(e.l) \o " " \o e.op \o " " \o Render(e.r) \o ")"
 
 Nickname == <<110, 105, 99, 107, 110, 97, 109, 101>>
-Fields == {"name", "given", "family", "use", "telecom", "rank", "value", "system", "identifier", "extension", "url", "period", "start", "active", "zz"}
 Lits == {Lit1(B(TRUE)), Lit1(B(FALSE)), LitE, Lit1(I(0)), Lit1(I(1)), Lit1(I(2)), Lit1(Str(Official)), Lit1(Str(Smith)), Lit1(Str(John)), Lit1(Str(Nickname))}
 
-(* small expressions over $this, used as criteria / projections / operands *)
-Atoms == {This} \cup {Fld(This, f) : f \in Fields} \cup Lits
-Lambda1 ==
-  Atoms
-  \cup {Call(Fld(This, f), g, <<>>) : f \in Fields, g \in {"exists", "empty", "count", "first", "last"}}
-  \cup {Bin(op, Fld(This, f), l) : op \in {"=", "!=", "<", ">"}, f \in {"use", "family", "given", "rank", "value"}, l \in Lits}
+(* Growth is type directed: the element names offered for a step (and inside criteria and projections) are the  *)
+(* names the schema allows on the items of the current focus, plus one unknown name now and then; on a focus of  *)
+(* System values no element step is offered.  (The focus is computed by the abstract machine itself.)            *)
+FocusOf(x) == Eval(x, Env(BaseVars), Input)
+NamesOf(r) ==
+  IF r.k = "ok" /\ Len(r.items) > 0 /\ r.items[1].t = "el" /\ r.items[1].r # 0
+  THEN ValidNames(Sch, NodeAt(Forest[r.items[1].r], r.items[1].addr)) ELSE {}
+Interesting == {"name", "given", "family", "use", "telecom", "rank", "value", "system", "identifier", "extension", "url", "period", "start",
+                "active", "contact", "relationship", "text", "gender", "birthDate", "communication", "preferred", "language", "address", "line",
+                "city", "generalPractitioner", "reference", "display", "maritalStatus", "coding", "code", "id", "meta", "lastUpdated", "tag"}
+FieldsFor(x) == LET ns == NamesOf(FocusOf(x)) IN (ns \cap Interesting) \cup (IF ns = {} THEN {} ELSE {"zz"})
+
+(* small expressions over $this for items that have the element names fs *)
+Lambda1(fs) ==
+  {This} \cup Lits \cup {Fld(This, f) : f \in fs}
+  \cup {Call(Fld(This, f), g, <<>>) : f \in fs, g \in {"exists", "empty", "count", "first", "last"}}
+  \cup {Bin(op, Fld(This, f), l) : op \in {"=", "!=", "<", ">"}, f \in fs \cap {"use", "family", "given", "rank", "value", "system", "url", "city", "text", "gender", "code", "display", "reference"}, l \in Lits}
   \cup {Bin(op, This, l) : op \in {"=", "!=", "<", ">="}, l \in Lits}
 
-(* one growth step applied to expression x *)
-Steps(x) ==
-  {Fld(x, f) : f \in Fields}
-  \cup {Call(x, g, <<>>) : g \in {"first", "last", "tail", "count", "empty", "exists", "distinct", "isDistinct", "not", "allTrue", "anyFalse"}}
-  \cup {Call(x, g, <<Lit1(I(n))>>) : g \in {"skip", "take"}, n \in -1..3}
-  \cup {Ix(x, n) : n \in 0..2}
-  \cup {Call(x, g, <<p>>) : g \in {"where", "select", "exists", "all"}, p \in Lambda1}
-  \cup {Call(x, "where", <<Bin(op, p, q)>>) : op \in {"and", "or", "implies"}, p \in {Call(Fld(This, "family"), "exists", <<>>), Bin("=", Fld(This, "use"), Lit1(Str(Official)))},
-                                              q \in {Call(Fld(This, "given"), "exists", <<>>), Bin(">", Call(Fld(This, "given"), "count", <<>>), Lit1(I(1))), LitE}}
-  \cup {Call(x, "select", <<Call(Fld(This, f), "where", <<q>>)>>) : f \in {"given", "telecom", "name"}, q \in {Bin("=", This, Lit1(Str(John))), Call(This, "exists", <<>>), Lit1(B(TRUE))}}
-  \cup {Call(x, "iif", <<Call(This, "exists", <<>>), Lit1(I(1)), Lit1(I(2))>>)}
-  \cup {Bin(op, x, l) : op \in {"=", "!="}, l \in Lits}
-  \cup {Bin(op, Call(x, "count", <<>>), Lit1(I(n))) : op \in {"=", "<", ">"}, n \in 0..3}
-  \cup {Bin(op, Call(x, "exists", <<>>), Call(x, "empty", <<>>)) : op \in {"and", "or", "xor", "implies"}}
+(* one growth step applied to expression x, by category (the machine first draws a category, then a member) *)
+NCat == 12
+StepCat(x, c) ==
+  LET fs == FieldsFor(x)
+      sub(f) == NamesOf(FocusOf(Fld(x, f))) \cap Interesting        \* names one level further down, for nested criteria
+      f1 == IF fs \ {"zz"} = {} THEN "zz" ELSE RandomElement(fs \ {"zz"})
+  IN CASE c = 1 -> {Fld(x, f) : f \in fs}
+       [] c = 2 -> {Call(x, g, <<>>) : g \in {"first", "last", "tail", "count", "empty", "exists", "distinct", "isDistinct", "not", "allTrue", "anyFalse"}}
+       [] c = 3 -> {Call(x, g, <<Lit1(I(n))>>) : g \in {"skip", "take"}, n \in -1..3} \cup {Ix(x, n) : n \in 0..2}
+       [] c \in {4, 5} -> {Call(x, g, <<p>>) : g \in {"where", "select", "exists", "all"}, p \in Lambda1(fs)}
+       [] c = 6 -> {Call(x, "where", <<Bin(op, p, q)>>) : op \in {"and", "or", "implies", "xor"},
+                       p \in {Call(Fld(This, f), "exists", <<>>) : f \in fs}, q \in {Call(Fld(This, f), "empty", <<>>) : f \in fs} \cup {LitE, Lit1(B(TRUE))}}
+       [] c = 7 -> {Call(x, "select", <<Call(Fld(This, f1), "where", <<q>>)>>) : q \in Lambda1(sub(f1))}
+       [] c = 8 -> {Call(x, "where", <<Call(Fld(This, f1), g, <<q>>)>>) : g \in {"exists", "all"}, q \in Lambda1(sub(f1))}
+       [] c = 9 -> {Call(x, "iif", <<Call(This, "exists", <<>>), Lit1(I(1)), Lit1(I(2))>>)} \cup {Bin(op, x, l) : op \in {"=", "!="}, l \in Lits}
+       [] c = 10 -> {Bin(op, Call(x, "count", <<>>), Lit1(I(n))) : op \in {"=", "<", ">"}, n \in 0..3}
+       [] c = 11 -> {Bin(op, Call(x, "exists", <<>>), Call(x, "empty", <<>>)) : op \in {"and", "or", "xor", "implies"}}
+       [] OTHER -> {Fld(x, f) : f \in fs} \cup {Call(x, "first", <<>>), Call(x, "tail", <<>>)}
 
 Starts == {Pat, Fld(Pat, "name"), Fld(Pat, "telecom"), Fld(Pat, "identifier"), Fld(Fld(Pat, "name"), "given"), Var("ints"), Var("mixed"), Var("none"), Fld(Pat, "contact"), Fld(Pat, "extension")}
 
